@@ -25,7 +25,9 @@ func c13(p *core.Program, r *core.Report) {
 	r.Rule("R1", "guard dominance inside the fragment: in every fragment method that sets bits for a caller (setBit, bulkImport), every path to the raw setter (unprotectedSetBit / bulkImportStandard with a set) passes the mutex guard (handleMutex / bulkImportMutex) or the test that the fragment has no mutex vector; the raw single-bit setter is called only from the frozen set of functions")
 	r.Rule("R2", "type guards on the bulk paths that do not know about mutex vectors: API.ImportRoaring and executor.executeSetRow (Store) refuse every field type except set (and time) before any fragment is touched; Field.importRoaring and fragment.setRow are called only from those paths")
 	r.Rule("R3", "vector wiring: view.newFragment installs a mutex vector exactly for field types mutex and bool, and Field.Import refuses bool rows other than 0 and 1")
-	r.NotDecided = "last-writer-wins inside a batch with repeated columns and pre-existing values (value reasoning over the batch and storage)"
+	r.Rule("R4", "the batch reduction keeps the last entry per column: in fragment.bulkImportMutex the loop over the input pairs stores every pair into the per-column map (forward loop: later entries overwrite earlier ones), or walks the input backwards and skips a pair only because its column is already in that map; no other condition may drop or skip an input pair before the map is updated")
+	c13LastWriter(p, r)
+	r.NotDecided = "which row a column ends on when the same batch is split across requests; value-level equality with a sequential model"
 	pk := p.Pkg("")
 	if pk == nil {
 		r.Undecide("R1", "package pilosa", "", "not loaded")
@@ -309,4 +311,221 @@ func c13(p *core.Program, r *core.Report) {
 		})
 		r.Check(ok, "R3", "(*Field).Import bool rows", p.Pos(fd.Pos()), "bool imports with a row above 1 are refused", "Field.Import no longer refuses bool rows other than 0 and 1")
 	}
+}
+
+// c13LastWriter: R4.
+func c13LastWriter(p *core.Program, r *core.Report) {
+	pk := p.Pkg("")
+	info := pk.TypesInfo
+	fd := core.FuncDecl(pk, "fragment", "bulkImportMutex")
+	construct := "(*fragment).bulkImportMutex batch reduction"
+	if fd == nil {
+		r.Undecide("R4", construct, "", "not found")
+		return
+	}
+	// the input slices
+	var inputs []types.Object
+	for _, fld := range fd.Type.Params.List {
+		for _, nm := range fld.Names {
+			if o := info.Defs[nm]; o != nil {
+				if _, ok := o.Type().Underlying().(*types.Slice); ok {
+					inputs = append(inputs, o)
+				}
+			}
+		}
+	}
+	isInput := func(e ast.Expr) bool {
+		id, ok := ast.Unparen(e).(*ast.Ident)
+		if !ok {
+			return false
+		}
+		for _, o := range inputs {
+			if info.ObjectOf(id) == o {
+				return true
+			}
+		}
+		return false
+	}
+	// the first loop over the input: `for i := range rowIDs`, `for i, x := range`, or a counted loop indexing them
+	var loopBody *ast.BlockStmt
+	descending := false
+	for _, st := range fd.Body.List {
+		switch x := st.(type) {
+		case *ast.RangeStmt:
+			if isInput(x.X) && loopBody == nil {
+				loopBody = x.Body
+			}
+		case *ast.ForStmt:
+			if loopBody == nil {
+				uses := false
+				ast.Inspect(x.Body, func(n ast.Node) bool {
+					if ix, ok := n.(*ast.IndexExpr); ok && isInput(ix.X) {
+						uses = true
+					}
+					return true
+				})
+				if uses {
+					loopBody = x.Body
+					if inc, ok := x.Post.(*ast.IncDecStmt); ok && inc.Tok == token.DEC {
+						descending = true
+					}
+				}
+			}
+		}
+		if loopBody != nil {
+			break
+		}
+	}
+	if loopBody == nil {
+		r.Violate("R4", construct, p.Pos(fd.Pos()), "no loop over the input pairs at the top of the function")
+		return
+	}
+	// the per-column map: a local map[uint64]T assigned by index in the loop
+	var colMap types.Object
+	ast.Inspect(loopBody, func(n ast.Node) bool {
+		as, ok := n.(*ast.AssignStmt)
+		if !ok || colMap != nil {
+			return true
+		}
+		for _, l := range as.Lhs {
+			if ix, ok := ast.Unparen(l).(*ast.IndexExpr); ok {
+				if id, ok := ast.Unparen(ix.X).(*ast.Ident); ok {
+					if o := info.ObjectOf(id); o != nil {
+						if m, ok := o.Type().Underlying().(*types.Map); ok {
+							if b, ok := m.Elem().Underlying().(*types.Basic); ok && b.Kind() == types.Uint64 {
+								colMap = o
+							}
+						}
+					}
+				}
+			}
+		}
+		return true
+	})
+	if colMap == nil {
+		r.Violate("R4", construct, p.Pos(loopBody.Pos()), "the loop over the input pairs does not record them in a per-column map")
+		return
+	}
+	const (
+		bStored flow.State = 1 << iota
+		bSeen              // skipping because the column is already in the map (backward walk)
+		bErr
+	)
+	var bad []string
+	h := flow.Hooks{Info: info}
+	h.Atom = func(n ast.Node, s flow.State) []flow.State {
+		if as, ok := n.(*ast.AssignStmt); ok {
+			for _, l := range as.Lhs {
+				if ix, ok := ast.Unparen(l).(*ast.IndexExpr); ok {
+					if id, ok := ast.Unparen(ix.X).(*ast.Ident); ok && info.ObjectOf(id) == colMap {
+						return []flow.State{s | bStored}
+					}
+				}
+			}
+		}
+		return []flow.State{s}
+	}
+	// `if _, ok := colMap[col]; ok { continue }`: the ok variable of a comma-ok lookup in the map
+	okVars := map[types.Object]bool{}
+	ast.Inspect(loopBody, func(n ast.Node) bool {
+		if as, ok := n.(*ast.AssignStmt); ok && len(as.Lhs) == 2 && len(as.Rhs) == 1 {
+			if ix, ok := ast.Unparen(as.Rhs[0]).(*ast.IndexExpr); ok {
+				if id, ok := ast.Unparen(ix.X).(*ast.Ident); ok && info.ObjectOf(id) == colMap {
+					if okId, ok := as.Lhs[1].(*ast.Ident); ok {
+						okVars[info.ObjectOf(okId)] = true
+					}
+				}
+			}
+		}
+		return true
+	})
+	h.Refine = func(cond ast.Expr, taken bool, s flow.State) (flow.State, bool) {
+		c := ast.Unparen(cond)
+		if o, neq, ok := flow.IsErrNilTest(info, c); ok && o != nil {
+			if neq == taken {
+				return s | bErr, true
+			}
+			return s &^ bErr, true
+		}
+		if id, ok := c.(*ast.Ident); ok && okVars[info.ObjectOf(id)] && taken && descending {
+			return s | bSeen, true
+		}
+		return s, true
+	}
+	h.Return = func(ret *ast.ReturnStmt, s flow.State) {
+		// falling off the end of the body (ret == nil) or `continue` are iteration ends
+		if s&(bStored|bSeen|bErr) == 0 {
+			pos := loopBody.End()
+			if ret != nil {
+				pos = ret.Pos()
+			}
+			bad = append(bad, p.Pos(pos))
+		}
+	}
+	// run the body as a function of its own: `continue` ends an iteration
+	body := &ast.BlockStmt{List: []ast.Stmt{&ast.ForStmt{Body: loopBody}}}
+	_ = body
+	it := flow.Run(flow.Hooks{Info: info, Atom: h.Atom, Refine: h.Refine, Return: h.Return}, c13IterationBody(loopBody), 0)
+	switch {
+	case it.Unsupported != "":
+		r.Undecide("R4", construct, p.Pos(loopBody.Pos()), it.Unsupported)
+	case len(bad) > 0:
+		r.Violate("R4", construct, p.Pos(loopBody.Pos()), "an input pair can leave the reduction loop without being recorded in the per-column map (iteration ends at "+strings.Join(dedupe(bad), ", ")+"): an earlier pair for the same column then wins over it, so the column does not end on the row of the last write")
+	default:
+		how := "every pair is stored (later entries overwrite earlier ones)"
+		if descending {
+			how = "backward walk; a pair is skipped only when its column was already taken"
+		}
+		r.HoldAt("R4", construct, p.Pos(loopBody.Pos()), how)
+	}
+}
+
+// c13IterationBody rewrites `continue` (of the loop itself) into `return` so
+// that one iteration can be interpreted as a function body.
+func c13IterationBody(body *ast.BlockStmt) *ast.BlockStmt {
+	var rw func(st ast.Stmt, inner bool) ast.Stmt
+	rwList := func(l []ast.Stmt, inner bool) []ast.Stmt {
+		out := make([]ast.Stmt, len(l))
+		for i, s := range l {
+			out[i] = rw(s, inner)
+		}
+		return out
+	}
+	rw = func(st ast.Stmt, inner bool) ast.Stmt {
+		switch x := st.(type) {
+		case *ast.BranchStmt:
+			if x.Tok == token.CONTINUE && x.Label == nil && !inner {
+				return &ast.ReturnStmt{Return: x.Pos()}
+			}
+		case *ast.BlockStmt:
+			return &ast.BlockStmt{Lbrace: x.Lbrace, List: rwList(x.List, inner), Rbrace: x.Rbrace}
+		case *ast.IfStmt:
+			n := *x
+			n.Body = rw(x.Body, inner).(*ast.BlockStmt)
+			if x.Else != nil {
+				n.Else = rw(x.Else, inner)
+			}
+			return &n
+		case *ast.ForStmt:
+			n := *x
+			n.Body = rw(x.Body, true).(*ast.BlockStmt)
+			return &n
+		case *ast.RangeStmt:
+			n := *x
+			n.Body = rw(x.Body, true).(*ast.BlockStmt)
+			return &n
+		case *ast.SwitchStmt:
+			n := *x
+			nb := &ast.BlockStmt{}
+			for _, c := range x.Body.List {
+				cc := *c.(*ast.CaseClause)
+				cc.Body = rwList(cc.Body, inner)
+				nb.List = append(nb.List, &cc)
+			}
+			n.Body = nb
+			return &n
+		}
+		return st
+	}
+	return rw(body, false).(*ast.BlockStmt)
 }
